@@ -21,6 +21,7 @@ class Unit:
         self.refs = []       # (symbol, weak)
         self.container = None  # None (plain) or container index
         self.filler = 0      # number of extra global definitions (to reach the 5000-symbol chunking)
+        self.weak_defs = []  # symbols defined weakly
 
 
 class Container:
@@ -61,23 +62,29 @@ def generate(rng, index):
             if owner == u.idx:
                 continue
             u.refs.append((sym, rng.random() < 0.25))
-    # a few symbols defined by two archive members: the first in command-line order must win, the
-    # later definer is given no other way of being loaded (no one references its other symbols).
+    # A symbol defined by two archive members: the first in command-line order must be loaded when the
+    # symbol is referenced. Variant 1: the later definer has no other way of being loaded. Variant 2:
+    # the later definer defines it weakly and IS loaded through another of its symbols (so whether it
+    # was activated before or after the reference is processed must not matter).
     dups = []
-    if len(members) >= 2 and rng.random() < 0.5:
+    if len(members) >= 2 and rng.random() < 0.6:
         a, b = sorted(rng.sample(members, 2), key=lambda u: u.idx)
-        if a.container != b.container or True:
-            sym = f"dup{a.idx}_{b.idx}"
-            a.defs.append(sym)
+        sym = f"dup{a.idx}_{b.idx}"
+        variant = rng.choice(["later-unreachable", "later-weak-and-loaded"])
+        a.defs.append(sym)
+        containers[b.container].whole = False
+        containers[a.container].whole = False
+        if variant == "later-unreachable":
             b.defs.append(sym)
-            dups.append((sym, a.idx, b.idx))
-            # nobody may reference b's own symbols, and b must not be in a whole-archive container
             bsyms = set(b.defs) - {sym}
             for u in units:
                 u.refs = [(s, w) for (s, w) in u.refs if s not in bsyms]
-            containers[b.container].whole = False
-            containers[a.container].whole = False
-            units[0].refs.append((sym, False))
+        else:
+            b.weak_defs = [sym]
+            # make sure b is loaded through one of its own symbols, from a plain object
+            units[rng.randrange(nplain)].refs.append((b.defs[0], False))
+        dups.append((sym, a.idx, b.idx))
+        units[rng.randrange(nplain)].refs.append((sym, False))
     big_unit = None
     if big:
         # A plain object with more than 5000 symbols, whose references straddle the boundary
@@ -118,7 +125,7 @@ def model_loaded(w, order):
                 pos += 1
     definers = {}
     for u in units:
-        for s in u.defs:
+        for s in list(u.defs) + list(u.weak_defs):
             definers.setdefault(s, []).append(u.idx)
     for s in definers:
         definers[s].sort(key=lambda i: cmd_pos[i])
@@ -136,7 +143,9 @@ def model_loaded(w, order):
                 ds = definers.get(s, [])
                 if not ds:
                     continue
-                if any(d in loaded for d in ds):
+                # The file holding the first definition (command-line order) is loaded, whether or
+                # not a later definer happens to be part of the link already.
+                if ds[0] in loaded:
                     continue
                 loaded.add(ds[0])
                 changed = True
@@ -155,6 +164,9 @@ def emit(w, workdir):
             out.append(f"fill{u.idx}_{k}:")
         for s in u.defs:
             out.append(f"\t.globl {s}")
+            out.append(f"{s}:")
+        for s in u.weak_defs:
+            out.append(f"\t.weak {s}")
             out.append(f"{s}:")
         out.append("\tret")
         for (s, weak) in u.refs:
